@@ -98,6 +98,12 @@ var enumTables = []enumTable{
 		"Dim1D": {"CapabilitySampled1D", "CapabilityImage1D"}, "DimCube": {"CapabilitySampledCubeArray", "CapabilityImageCubeArray"},
 		"Dim2D": {"CapabilityImageMSArray", "CapabilityStorageImageMultisample"}, "Dim3D": {},
 	}},
+	{Rule: "enummap.spirv.scalarcap", Pkg: "spirv", Enum: "ScalarKind", VocabType: "Capability", Ref: enumRef{
+		"ScalarFloat": {"CapabilityFloat16", "CapabilityFloat64", "CapabilityStorageBuffer16BitAccess", "CapabilityUniformAndStorageBuffer16BitAccess", "CapabilityStorageInputOutput16", "CapabilityStoragePushConstant16", "CapabilityAtomicFloat32AddEXT", "CapabilityAtomicFloat32MinMaxEXT"},
+		"ScalarSint":  {"CapabilityInt8", "CapabilityInt16", "CapabilityInt64", "CapabilityInt64Atomics", "CapabilityStorageBuffer8BitAccess", "CapabilityUniformAndStorageBuffer8BitAccess", "CapabilityStorageBuffer16BitAccess", "CapabilityUniformAndStorageBuffer16BitAccess", "CapabilityStorageInputOutput16"},
+		"ScalarUint":  {"CapabilityInt8", "CapabilityInt16", "CapabilityInt64", "CapabilityInt64Atomics", "CapabilityStorageBuffer8BitAccess", "CapabilityUniformAndStorageBuffer8BitAccess", "CapabilityStorageBuffer16BitAccess", "CapabilityUniformAndStorageBuffer16BitAccess", "CapabilityStorageInputOutput16"},
+		"ScalarBool":  {},
+	}},
 	{Rule: "enummap.spirv.format", Pkg: "spirv", Enum: "StorageFormat", VocabType: "ImageFormat", Ref: enumRef{
 		"StorageFormatR8Unorm": {"ImageFormatR8"}, "StorageFormatR8Snorm": {"ImageFormatR8Snorm"}, "StorageFormatR8Uint": {"ImageFormatR8ui"}, "StorageFormatR8Sint": {"ImageFormatR8i"},
 		"StorageFormatR16Uint": {"ImageFormatR16ui"}, "StorageFormatR16Sint": {"ImageFormatR16i"}, "StorageFormatR16Float": {"ImageFormatR16f"},
@@ -255,7 +261,7 @@ var enumTableFloors = map[string]int{
 	"enummap.glsl.builtin": 16, "enummap.glsl.format": 10, "enummap.glsl.interp": 3, "enummap.glsl.sampling": 2, "enummap.glsl.scalar": 20,
 	"enummap.hlsl.builtin": 11, "enummap.hlsl.format": 40, "enummap.hlsl.interp": 2, "enummap.hlsl.regtype": 3, "enummap.hlsl.scalar": 23, "enummap.hlsl.stage": 3,
 	"enummap.msl.builtin": 17, "enummap.msl.dim": 10, "enummap.msl.interp": 3, "enummap.msl.sampling": 4, "enummap.msl.scalar": 13, "enummap.msl.space": 5, "enummap.msl.stage": 3,
-	"enummap.spirv.builtin": 15, "enummap.spirv.builtincap": 7, "enummap.spirv.dimcap": 2, "enummap.spirv.execmode": 2, "enummap.spirv.format": 32,
+	"enummap.spirv.scalarcap": 3, "enummap.spirv.builtin": 15, "enummap.spirv.builtincap": 7, "enummap.spirv.dimcap": 2, "enummap.spirv.execmode": 2, "enummap.spirv.format": 32,
 	"enummap.spirv.interp": 2, "enummap.spirv.sampling": 2, "enummap.spirv.space": 7, "enummap.spirv.stage": 3,
 }
 
